@@ -12,663 +12,587 @@ Definition show_fres (r : fres) : string :=
   end.
 Definition check (rs : list rune) : string := digest (show_fres (format_res rs)).
 Definition full (rs : list rune) : string := show_fres (format_res rs).
-Eval vm_compute in ("<<<M233>>>" ++ check (runes_of_ascii "
-packet rootA { char[ 0  ]  len @calculatedFrom(// `tick` ""quote"" 'q'
-""abc"" ) , u8
-    // trailing space 
-    uint8x @lengthOf(roots
-) // 50% %s
-`a\`
-, int
-    @calculatedFrom(""a\""b"" ) ,
-match msg_type as i8i8 { ""\" ++ [233]%N ++ runes_of_ascii """ :
-// trailing space 
-// a // b
-Header , 1 /// triple
-:
-    zchar
-,
-[
-    ""\n"" ] :string_
-""\n""
-:i8i8 0123456789// c
-:Logon[00 ,007 , ""1"",
-""it's""//
-, ""// no comment"" ,0, ""a\\"" , 007 // " ++ [27880; 37322]%N ++ runes_of_ascii "
-] /// triple
-:BodyLength }
-,
-    match
-    rootA
-// @lengthOf(
-// " ++ [27880; 37322]%N ++ runes_of_ascii "
-as
-    chars
-{ 7 :
-    Header} , A Foo // `tick` ""quote"" 'q'
-`tab	here`
-,float64
-charz @calculatedFrom(""\" ++ [233]%N ++ runes_of_ascii """ ) ,	f32 tag , @lengthOf( x ) // `tick` ""quote"" 'q'
-@leftPad
-    (	'\x00' )	crc { repeat i16 options1 `tab	here` , match options1
-as charz { ""CRC32""	: u , 0 // " ++ [27880; 37322]%N ++ runes_of_ascii "
-: //
-charz
-""x y""
-    :	roots	, [ ""CRC32""
-,
-    """ ++ [233]%N ++ runes_of_ascii "t" ++ [233]%N ++ runes_of_ascii """
-]
-: i8i8
-,}
-    ,  repeat // " ++ [27880; 37322]%N ++ runes_of_ascii "
-falsey { match chars as
-asx	{ ""abc"" : stringy
-,
-    } ,match lengthOf as charz {
-    0123456789	:
-// c
-//
-o // " ++ [27880; 37322]%N ++ runes_of_ascii "
-,
-    ""// no comment""
-: chars ,[
-    // @lengthOf(
-    """"  , 7
-    , 255 ,00  , 42	]
-    :
-float  , } ,	match
-    a1 as lengthOf
-{ [ /// triple
-65535	, 1 ]: int
-""{,}"": calculatedFrom ,
-""`tick`"" :  float// @lengthOf(
-""// no comment""
-: Packet[ // c
-""\" ++ [233]%N ++ runes_of_ascii """ ,	""// no comment"",
-3	,
-    """ ++ [128512]%N ++ runes_of_ascii """
-    // packet A { u8 x, }
-    , 255]  : int ,
-//	t
-// trailing space 
-} ,},
-}	,}  options {
-msg_type= true
-lengthOf =zchar[
-    //
-    1 // @lengthOf(
-]; } root
-    //
-    packet packetx { i8 // 50% %s
-tag
-`line1
-line2`,
-    // @lengthOf(
-    }")).
-Eval vm_compute in ("<<<M1370>>>" ++ check (runes_of_ascii "// top
-options
-    // c0
-{ // c1a
-  // c1b
-LittleEndian
-    // c2
-= // c3a
-  // c3b
-true // c4
-; ArrayPrefixLenType = u32 ;
-    // c9
-FixedStringPadChar // c10
-= ' '
-    // c12
-; } packet Order // c16a
-  // c16b
-{
-    // c17
-char[ 5 ] seqNo // c21a
-  // c21b
-, // c22
-uint8 Px // c24a
-  // c24b
-, } // c26
-packet // c27a
-  // c27b
-Logon
-    // c28
-{ @rightPad // c30
-(
-    // c31
-'\x00' // c32
-)
-    // c33
-char[ // c34
-8 ] Flags // c37
-,
-    // c38
-zchar[
-    // c39
-3
-    // c40
-]
-    // c41
-count
-    // c42
-, repeat // c44a
-  // c44b
-Order // c45
-, // c46a
-  // c46b
-} // c47
-root
-    // c48
-packet // c49a
-  // c49b
-Party // c50
-{ // c51a
-  // c51b
-repeat // c52
-Logon // c53
-,
-    // c54
-repeat // c55
-char[ 1 // c57
-]
-    // c58
-x , u32 // c61a
-  // c61b
-price
-    // c62
-, // c63
-u32
-    // c64
-Side2
-    // c65
-@lengthOf(
-    // c66
-Body
-    // c67
-) ,
-    // c69
-match price // c71a
-  // c71b
-as Body // c73a
-  // c73b
-{ // c74
-49 // c75
-: Order , // c78
-196 : // c80a
-  // c80b
-Logon // c81a
-  // c81b
-, } // c83a
-  // c83b
-, u32 // c85
-f1 // c86a
-  // c86b
-@calculatedFrom( ""CRC32""
-    // c88
-) // c89a
-  // c89b
-, // c90a
-  // c90b
-} // c91a
-  // c91b
-")).
-Eval vm_compute in ("<<<M1928>>>" ++ check (runes_of_ascii "  root
-    packet rootA{}
-
-packet	// 50% %s
-
-Z9_  {
-
-    repeat
-
-char[  007	]
-
-f32a 
-,
-    @rightPad(  ) u32 Header
-
-    `a\` ,
-
-    repeat
-Z9_
-    , repeat
-i8i8 
-    // 50% %s
-    int`u8 x,` 	 // a // b
-	, 	 // `tick` ""quote"" 'q'
-  	uint8x , f64 
-
-    // @lengthOf(
-	// `tick` ""quote"" 'q'
-i8i8  `" ++ [28040; 24687; 31867; 22411]%N ++ runes_of_ascii "`, @tag(
-    //x
-    	// 50% %s
-3	) 	 // `tick` ""quote"" 'q'
-    @tag(  3
-	) @tag(
-	10
-)  repeat int
-	{	MetaDataX
-
-    , },	@tag(	10
-
+Eval vm_compute in ("<<<M11>>>" ++ check (runes_of_ascii "root packet repeatCount
+    {repeat tag As  , Logon @calculatedFrom(
+""it's"" )
+, @calculatedFrom( ""`tick`""
+) string uint8x , repeat /// triple
+Pad u8x `line1
+line2`
+,@leftPad( )char[
+    007
+    ] string_
+    , @lengthOf(Packet ) repeat
+    int8 Header `it's`,
+    // `tick` ""quote"" 'q'
+    } root packet pack{
+    uint64  Packet @calculatedFrom(	""\n""
     )
-
-    int8
-
+, }
+    options {	pack	=
+    ""// no comment"" //x
+;
+body // " ++ [128512]%N ++ runes_of_ascii " emoji
+= ""a	b""
+;} // trailing space 
+packet Logon// trailing space 
+{ u8x{
+    // 50% %s
+    trueish
+@lengthOf(tag) `two words` , match body
+    // trailing space 
+    as
+int  {// trailing space 
+0 :i8i8 } ,
+    repeat uint8x o
+, } //	t
+,
+@tag(65535)
+int16 falsey, zchar[ 10] float `100% of %d`
+    , repeat
+    // packet A { u8 x, }
+    calculatedFrom
+`a\` , zchar[ 10]	crc
+@lengthOf(
+    repeatCount
+)
+`" ++ [28040; 24687; 31867; 22411]%N ++ runes_of_ascii "` , // `tick` ""quote"" 'q'
+match
+// trailing space 
 // " ++ [128512]%N ++ runes_of_ascii " emoji
-pack
-
-@lengthOf(  x
-) ,	} 
-packet	metadata  {@calculatedFrom(	""" ++ [233]%N ++ runes_of_ascii "t" ++ [233]%N ++ runes_of_ascii """	)
-    repeat	rootA  uint8x
-    , @calculatedFrom( ""\n""	)@lengthOf( 
-len
-
-    )	BodyLength {
-
-    matchKey f32a `a\`
-	, } ,
-
-char[] leftPad 
-`tab	here` , 
-    // " ++ [27880; 37322]%N ++ runes_of_ascii "
-  u32
-    a1
+rootA as repeatCount  {
+3: crc
+""CRC32""
+    : //x
+x
+    //x
+    , 007
+    :A 7: chars
+    ,	[
+    007 ]: x ,  [
+    //x
+    007// " ++ [27880; 37322]%N ++ runes_of_ascii "
+, 255  ,""" ++ [28040; 24687]%N ++ runes_of_ascii """ , 42 ]: Z9_
+    , } ,  @tag(
+007//	t
+)
+repeat string len , int	, Foo  {
+match
+roots
+as
+    _x
+    { ""// no comment"" : o, [ 4294967296, """ ++ [233]%N ++ runes_of_ascii "t" ++ [233]%N ++ runes_of_ascii """ , 4294967296 , 7  , ""packet""
+,
+    3
+] : string_ ,""x y""// " ++ [27880; 37322]%N ++ runes_of_ascii "
+:float [ ""a\""b"" //x
+,
+""1""
+] // packet A { u8 x, }
+: zchar  ,}
+    , rootA { repeat metadata{ repeat
+char[
+    1 ] i64_
+`100% of %d`, match matchKey as stringy{ [ ""`tick`"" ] :x ,
+[
+    3 , 65535 ,255 ,  ""a\\"",""a\\"" , ""x y"" //x
+] : _x,} , }
+, }	,
+repeat char stringy ,
+    A `crlf
+line`
+, //	t
+}, @leftPad ( ) Header{	i32 asx @lengthOf(
+    lengthOf
+)
+,
+} , }
+")).
+Eval vm_compute in ("<<<M320>>>" ++ check (runes_of_ascii "// @lengthOf(
+MetaData BodyLength{ u8x	u128 `a\` , }packet
+    // c
+    stringy  { } packet// " ++ [128512]%N ++ runes_of_ascii " emoji
+a1
+{i8 f32a
+    `
+`	,repeat  i64 len,@calculatedFrom( ""\" ++ [233]%N ++ runes_of_ascii """ ) string
+    leftPad
+`line1
+line2` , match a1
+as float { [ 007 , 3 ] : repeatCount, 3 /// triple
+: MetaDataX ""CRC32""
+    /// triple
+    : u128
+    // trailing space 
+    , [ ""a\""b"" ,""// no comment""
+]
+:roots,""\" ++ [233]%N ++ runes_of_ascii """: // c
+A}// packet A { u8 x, }
+, zchar[ 42]Pad,/// triple
+@calculatedFrom( """ ++ [233]%N ++ runes_of_ascii "t" ++ [233]%N ++ runes_of_ascii """) // `tick` ""quote"" 'q'
+match
+    chars	as// trailing space 
+string_
+{3 :
+options1 , } , uint32
+packetx
+    `` ,
+@tag(// 50% %s
+42) @tag( 1 ) /// triple
+@calculatedFrom( """ ++ [128512]%N ++ runes_of_ascii """ )
+_x`// not a comment` ,}root packet repeatCount {
+@leftPad (
+) char[ 0] x_y_z@calculatedFrom(""1"" //x
+),
+@rightPad ( ) char[] int
+, f64 // c
+asx ,	repeat Pad
+, match i64_
+as
+roots{
+[ ""1""
+    , ""packet""]
+    /// triple
+    :a1,""`tick`""  :
+    // c
+    trueish  , [3 ,	""\n"" // `tick` ""quote"" 'q'
+, ""`tick`"", ""it's"" , 10 ,
+""a\""b"" // a // b
+, ""CRC32"" // a // b
+]
+    //	t
+    : As, [ 10
+,
+10 ]: options1
+, ""CRC32"": a1
+,65535 :u
+    , // c
+} , @calculatedFrom( ""x y"" )
+@tag(255
+    )@tag( 1 )// c
+zchar[1 ] crc // " ++ [27880; 37322]%N ++ runes_of_ascii "
+`
+` , repeat u16 tag `crlf
+line` ,
+@leftPad (' ') roots
+@calculatedFrom(
+    //	t
+    """" )
     ,}
 
-packet	trueish
-
-    {
-	@tag(
-	007
-	) 
-f64 f32a	@calculatedFrom("""" )
-
-`say ""hi""`	/// triple
-	,@calculatedFrom(	""packet"" ) 
-@calculatedFrom(""" ++ [28040; 24687]%N ++ runes_of_ascii """ // trailing space 
-		)repeat	char[
-
-    3  ]  zchar `
-` ,
-}MetaData tag
-{} ")).
-Eval vm_compute in ("<<<M305>>>" ++ check (runes_of_ascii "options { i8i8 =
-    // " ++ [27880; 37322]%N ++ runes_of_ascii "
-    float64//
-;
-pack =
-    ""// no comment"" ; len =
-    zchar[ 42 ] ;A
-    = 65535
-    //	t
-    ;
-    BodyLength	= 255
-;
-    }
-root
-packet	uint8x { @tag(
-255 )
-    @calculatedFrom( /// triple
-""a\""b"" ) @leftPad ( ) string
-i64_,} root packet tag
-{char[]
-BodyLength , tag {	repeat zchar[10] roots`" ++ [28040; 24687; 31867; 22411]%N ++ runes_of_ascii "` ,
-} , BodyLength {
-    // `tick` ""quote"" 'q'
-    repeat msg_type
-{zchar[
-    // " ++ [27880; 37322]%N ++ runes_of_ascii "
-    10 ]
-Header @calculatedFrom( ""`tick`"" ) , repeat chars, f32a @calculatedFrom(""packet"") , Header {roots @calculatedFrom( """ ++ [28040; 24687]%N ++ runes_of_ascii """ ) ,
-}  , },match
-    body as
-    // `tick` ""quote"" 'q'
-    calculatedFrom {
-    65535 :calculatedFrom 00 :
-i64_ [ ""\n"" ,""a\""b""
-// c
-// a // b
-]
-    // @lengthOf(
-    :
-a1 ,
-    // " ++ [128512]%N ++ runes_of_ascii " emoji
-    65535 : charz , [ 3
-    ,
-""" ++ [28040; 24687]%N ++ runes_of_ascii """ ] :
-    _x	,""1""
-:
-    pack , },
-    } , float32
-    lengthOf	`doc` ,}
 ")).
-Eval vm_compute in ("<<<M1332>>>" ++ check (runes_of_ascii "packet P1 // c1a
-  // c1b
-{ // c2
-u8 // c3a
-  // c3b
-a
-    // c4
-, }
-    // c6
-packet
-    // c7
-P2
-    // c8
-{ P1 // c10
-, // c11a
-  // c11b
-}
-    // c12
-packet
-    // c13
-P3 { // c15
-P2 , // c17a
-  // c17b
-P1
-    // c18
-, // c19a
-  // c19b
-}
-    // c20
-packet P4 { // c23a
-  // c23b
-repeat P3 , // c26
-P2 // c27a
-  // c27b
-, // c28
-} root // c30a
-  // c30b
-packet // c31
-P5 { P4
-    // c34
-,
-    // c35
-P3
-    // c36
-, // c37a
-  // c37b
-P1 // c38a
-  // c38b
-, u8 K // c41a
-  // c41b
-,
-    // c42
-match
-    // c43
-K // c44
-as Body {
-    // c47
-4 // c48
-: // c49
-P4 , // c51
-3 :
-    // c53
-P3 ,
-    // c55
-2 // c56a
-  // c56b
-:
-    // c57
-P2
-    // c58
-,
-    // c59
-1 // c60
-: // c61
-P1 // c62
-, } , } ")).
-Eval vm_compute in ("<<<M1880>>>" ++ check (runes_of_ascii "packet Header {
-    uint16 As @calculatedFrom(""CRC32""),
-    float `doc`,
-    char[3] crc,//x
-    repeat u32 packetx,
-    a1 @calculatedFrom(""`tick`""),
-    repeat rootA {
-        u8x `crlf
-                line`,
-        string x,
-    },
-    roots {
-        char[65535] len `100% of %d`,
-        u32 x_y_z,
-    },
-    a1 {
-        match zchar as len {
-            ""a\""b"" : roots,
-        },
-        uint32 i64_ `// not a comment`,
-        repeat x_y_z {
-            u @calculatedFrom(""""),
-            Packet {
-                char[00] msg_type,
-            },
-        },
-    },
-    options1 i8i8,
-    string calculatedFrom,
-}")).
-Eval vm_compute in ("<<<M1600>>>" ++ check (runes_of_ascii "// top
-options {
+Eval vm_compute in ("<<<M1714>>>" ++ check (runes_of_ascii "options {
     LittleEndian = true;
-    // c5
-    StringPrefixLenType = u16;// c9a
-    // c9b
-    ArrayPrefixLenType = u16;
-    // c13
-    FixedStringPadFromLeft = true;// c17a
-    // c17b
-    FixedStringPadChar = '0';// c21
+    StringPrefixLenType = u16;
+    ArrayPrefixLenType = u8;
+    FixedStringPadChar = ' ';
 }
 
-// c22
-packet Leg {
-    // c25a
-    // c25b
-    u16 Flags,
-    // c28
-    u8 price,
-}// c32
-
-packet Quote {
-    uint16 count,// c38
-    InNote89 {
-        repeat Leg,// c43a
-        // c43b
+packet Ack {
+    @leftPad(' ')
+    char[5] lastPx,
+    zchar[4] count,
+    repeat InVenue30 {
+        char[9] Side2,
+        char[12] venue,
     },
 }
 
-root packet Ack {
-    // c50
-    char[3] price,// c55
-    u64 sym,
-    // c58
-    zchar[1] Tail,// c63
-}// c64a
-// c64b")).
-Eval vm_compute in ("<<<M187>>>" ++ check (runes_of_ascii "  packet matchKey
-    { @tag( 4294967296) lengthOf`{ , }`
-, //x
-repeat BodyLength u8x
-    ,  @tag(  007 )
-    // packet A { u8 x, }
-    match o as int	{ [ /// triple
-""a\""b""
-]: Header , } ,@tag( // @lengthOf(
-1 )repeat /// triple
-u128
-    // @lengthOf(
-    {
-    repeat
-    metadata
-float	`
-` , } //
-, @calculatedFrom(
-""""
-    )@tag( 4294967296
-    // a // b
-    ) @tag(  7 ) i64_ Logon ,
-    // " ++ [27880; 37322]%N ++ runes_of_ascii "
-    @rightPad (  '\x00' //x
-)  @calculatedFrom(
-""\" ++ [233]%N ++ runes_of_ascii """ )
-    @rightPad ( //	t
-'0' ) i32 roots ,	}")).
-Eval vm_compute in ("<<<M1500>>>" ++ check (runes_of_ascii "
-options{ stringy  = 
-// packet A { u8 x, }
-		// a // b
-true
-
-;
-	x_y_z
-	=
-
-false
-
-x ='\x00'	//x
-; matchKey  = i64 
-;	// c
-      }  root packet 
-o	{
-@lengthOf( float )int32
-
-As , }	root
-        /// triple
-// trailing space 
-  packet
-x 
-{// a // b
-@rightPad
-    ( ) 
-i8i8 
-@calculatedFrom(
-""x y""
-
-    )	//x
-	  ,
-
-}
-MetaData u
-{
-
-A
-    /// triple
-	u8x , }
-	options
-{
-u8x
-
-    =
-
-    i64
-	_x= ""CRC32""
-
-    ;MetaDataX 
-=
-u8
-    }
-")).
-Eval vm_compute in ("<<<M1633>>>" ++ check (runes_of_ascii "packet falsey
-
-    { 
-repeat  f32 msg_type
-
-    ,
-	    // `tick` ""quote"" 'q'
-  } options	{ 
-x
-=
-    false 	 // trailing space 
-
-  ; //	t
-	A
-	=
-    0123456789; }packet 
-stringy{  u128 int 
-// @lengthOf(
-	// @lengthOf(
-  ,
-
-    }
-
-MetaData	A	{
-u16
-
-o
-, A
-    u8x,string  roots
-	,
-
-    options1
-u128 
-`line1
-line2`
-
-    ,
-char[]msg_type``
-,
-    roots
-
-    rootA`{ , }`
-
-    , 	 // @lengthOf(
-}
-")).
-Eval vm_compute in ("<<<M1851>>>" ++ check (runes_of_ascii "root packet rootA {
-    @tag(3)
-    T {
-        int64 pack @calculatedFrom(""a\\"") `tab	here`,
-        char[10] float,
-        u {
-            repeat f32 chars,
+packet Order {
+    int16 Note,
+    repeat InAcct28 {
+        InSym3 {
+            Ack,
+            char[4] lastPx,
+            char[1] venue,
+            f32 Ref,
         },
-        char[] f32a @lengthOf(zchar),
+        repeat InTag729 {
+            char[3] Side2,
+            uint64 Acct,
+            char[] price,
+            zchar[9] Note,
+            zchar[9] venue,
+        },
+        char[] count,
+        Ack,
+        char[] Px,
     },
-    @calculatedFrom(""CRC32"")
-    u32 x_y_z @lengthOf(Header) `say ""hi""`,
-    @tag(65535)
-    char Logon `line1
-    line2`,
-    float32 zchar `// not a comment`,
+    u8 f1,
+    Ack,
+}
+
+packet Fill {
+    zchar[7] x,
+    Order,
+    @leftPad(' ')
+    char[9] venue,
+    string count,
+    char[] Flags,
+}
+
+packet Logon {
+}
+
+packet Reject {
+    Order,
+    char[] sym,
+}
+
+root packet Quote {
+    string price,
+    i64 Flags,
+    repeat Fill,
+    zchar[9] x,
+    f32 lastPx,
+    repeat Ack,
 }")).
-Eval vm_compute in ("<<<M1175>>>" ++ check (runes_of_ascii "// top
-options // c0
-{ // c1
-f32a // c2
-= // c3
-0 // c4
-} // c5
-packet // c6
-trueish // c7
-{ // c8
-} // c9
-MetaData // c10
-_x // c11
-{ // c12
-char[ // c13
-0123456789 // c14
-] // c15
-zchar // c16
-, // c17
-string // c18
-crc // c19
-, // c20
-char[ // c21
-1 // c22
-] // c23
-options1 // c24
-, // c25
-uint8 // c26
-repeatCount // c27
-, // c28
-} // c29
+Eval vm_compute in ("<<<M28>>>" ++ check (runes_of_ascii "options {
+Foo =
+true ; len = '\x00'
+asx =
+'0' ; asx = // packet A { u8 x, }
+3 ;
+// " ++ [128512]%N ++ runes_of_ascii " emoji
+//
+} //	t
+packet	u128{
+    uint8 crc `doc`,
+    Z9_ ,repeat
+i8 roots,	@lengthOf( crc) repeat As `two words` , zchar[	007 ]
+    //x
+    tag `// not a comment` ,} packet pack// c
+{ string msg_type ,@calculatedFrom(	""""	)
+    repeat string
+tag`u8 x,`
+    ,int16 leftPad ,
+@tag(1
+    // " ++ [27880; 37322]%N ++ runes_of_ascii "
+    ) crc ,}
+/// triple
+// a // b
+root packet packetx {
+@rightPad
+(	'0'	) float64 o
+    // a // b
+    `two words`
+,
+repeat //	t
+string_
+    crc , i64
+    As`line1
+line2` ,@lengthOf( rootA //
+)
+u32
+Logon @lengthOf(a1
+) , @calculatedFrom(""""
+    ) @leftPad
+//x
+// @lengthOf(
+(' '
+) uint16 i8i8
+@calculatedFrom( ""// no comment"") , repeat char[]a1
+, u128 {
+// packet A { u8 x, }
+// trailing space 
+falsey @lengthOf( pack ) , int16
+packetx ,
+i64_ @calculatedFrom(""\" ++ [233]%N ++ runes_of_ascii """
+    ) `{ , }`
+    // " ++ [27880; 37322]%N ++ runes_of_ascii "
+    , int64 i8i8 `a\`,
+    }
+, }")).
+Eval vm_compute in ("<<<M1380>>>" ++ check (runes_of_ascii "options {
+    ArrayPrefixLenType = u32;
+    FixedStringPadFromLeft = false;
+    FixedStringPadChar = '0';
+}
+packet Trade {
+    repeat InVenue78 {
+        u16 tag7,
+        repeat InLastpx9 {
+            u8 pad0,
+        },
+        int64 Tail,
+        repeat InQty37 {
+            char[2] OrderId,
+            zchar[6] lastPx,
+            int64 Qty,
+        },
+        uint8 Side2,
+    },
+}
+packet Logon {
+    repeat string venue,
+    @rightPad('\x00') char[3] sym,
+    zchar[9] count,
+    zchar[7] f1,
+    Trade,
+}
+packet Logout {
+}
+root packet Reject {
+    int32 sym,
+    u8 Px,
+    u32 Tail @lengthOf(Body),
+    match Px as Body {
+        184 : Trade,
+        173 : Logon,
+        12 : Logout,
+    },
+    u32 tag7 @calculatedFrom(""CRC32""),
+}
 ")).
+Eval vm_compute in ("<<<M165>>>" ++ check (runes_of_ascii "packet Pad { match
+string_
+as
+// c
+// `tick` ""quote"" 'q'
+asx
+{ 7 : len 3 : lengthOf
+,[1
+    ]:
+charz
+""{,}""
+:
+    string_
+, ""\n"" :
+tag	,}
+    , @calculatedFrom( ""a	b"" )
+// packet A { u8 x, }
+// " ++ [128512]%N ++ runes_of_ascii " emoji
+i16 calculatedFrom `it's` ,
+@tag(10	) repeat
+    // packet A { u8 x, }
+    o {
+    repeat
+    char[] o  `say ""hi""` ,
+int @calculatedFrom(	""a\\"" ) , Foo { repeat T {f32
+    /// triple
+    A @lengthOf( charz
+) ,  Logon @lengthOf( // c
+pack
+)`a\` ,
+    }
+    , }	,
+// " ++ [128512]%N ++ runes_of_ascii " emoji
+//
+}, } options
+    { i64_=uint32 // trailing space 
+;	falsey = ""a	b"" ; BodyLength
+/// triple
+// c
+=
+'0' ;
+    lengthOf
+    = """ ++ [28040; 24687]%N ++ runes_of_ascii """ ; repeatCount=
+    // @lengthOf(
+    u64}
+")).
+Eval vm_compute in ("<<<M25>>>" ++ check (runes_of_ascii "
+packet float// @lengthOf(
+{
+}
+root packet Foo
+    { @calculatedFrom(
+""\" ++ [233]%N ++ runes_of_ascii """ )char[ 7] u128
+    ,
+@calculatedFrom(	""1"") repeat
+    char[3] u `100% of %d`,  u128
+    // " ++ [27880; 37322]%N ++ runes_of_ascii "
+    ,
+@tag( 3 ) char[
+3 ] rootA
+`two words` //x
+, @leftPad() metadata  @lengthOf( //x
+leftPad) ,
+string
+    // 50% %s
+    i8i8@calculatedFrom(""{,}""
+)
+,repeat int32 T , @calculatedFrom(
+""abc""
+    )@lengthOf( options1
+)	@lengthOf(options1 ) match
+    T// " ++ [27880; 37322]%N ++ runes_of_ascii "
+as body// a // b
+{
+    ""{,}""
+// `tick` ""quote"" 'q'
+//	t
+:
+// packet A { u8 x, }
+//
+stringy
+    , } ,@lengthOf( Packet ) leftPad
+`tab	here`,  } 	 ")).
+Eval vm_compute in ("<<<M1434>>>" ++ check (runes_of_ascii "packet metadata {
+    Header u128,
+}
+
+packet zchar {
+    /// triple
+    @tag(4294967296)
+    @lengthOf(a1)
+    i8 _x `crlf
+    line`,
+    @lengthOf(_x)
+    match x_y_z as Packet {
+        0 : leftPad,
+        65535 : tag,
+        00 : leftPad,
+        ""a\\"" : Packet,
+        10 : o,
+        [""CRC32""] : float,
+    },
+    match stringy as calculatedFrom {
+        ""`tick`"" : rootA,
+        ""`tick`"" : asx,
+        3 : u128,
+    },
+    @lengthOf(msg_type)
+    @tag(10)
+    // 50% %s
+    repeatCount @lengthOf(string_) `a\`,
+}")).
+Eval vm_compute in ("<<<M181>>>" ++ check (runes_of_ascii "  packet // c
+_x{ calculatedFrom@lengthOf(
+roots  ) `it's` ,
+match
+metadata
+as BodyLength {	[
+    10 , 10, ""a\""b""
+    ,""""//	t
+,
+""\n""
+,// @lengthOf(
+""a\\"" ,	4294967296 ] : u,
+    },
+    repeat // trailing space 
+i64_
+    Packet// " ++ [128512]%N ++ runes_of_ascii " emoji
+`{ , }` // " ++ [27880; 37322]%N ++ runes_of_ascii "
+,// packet A { u8 x, }
+@tag(
+65535 )char[]
+float
+    `crlf
+line`,char[ 7]
+    /// triple
+    x @calculatedFrom(
+""{,}""
+)
+/// triple
+// a // b
+,
+    @leftPad ( )
+    u64 stringy
+    // c
+    @calculatedFrom( ""\" ++ [233]%N ++ runes_of_ascii """ ) , }packet A	{ }")).
+Eval vm_compute in ("<<<M13>>>" ++ check (runes_of_ascii "MetaData u128 {} MetaData a1 {}// " ++ [128512]%N ++ runes_of_ascii " emoji
+root packet o
+{
+char[ 10 ] stringy@lengthOf(
+/// triple
+// 50% %s
+Z9_ //	t
+) ,
+    match x_y_z as	stringy { 3 : float ,	} , @leftPad	(
+' ' )u128 {
+    repeat i32
+msg_type `it's` , x ,
+repeat char[ //
+65535 ] T
+, match  A as i8i8 { """ ++ [128512]%N ++ runes_of_ascii """ : Logon , },} , }MetaData x_y_z { // @lengthOf(
+options1 a1 , u8x  x_y_z
+`tab	here` ,	char MetaDataX , // " ++ [27880; 37322]%N ++ runes_of_ascii "
+zchar[ 65535
+    ] chars
+    , char[]
+crc`doc`	, }")).
+Eval vm_compute in ("<<<M1616>>>" ++ check (runes_of_ascii "root 	 // 50% %s
+  packet
+    u128
+{ 
+a1@calculatedFrom(""a\""b""
+)
+,
+}root
+packet
+
+pack
+	{ BodyLength
+@calculatedFrom( ""{,}"" 
+)`// not a comment` , //x
+uint8x ,
+	i64
+    rootA 
+,	@lengthOf( BodyLength
+	)string
+
+zchar 
+, // " ++ [128512]%N ++ runes_of_ascii " emoji
+  }packet
+
+    _x {
+
+    @tag(
+    7
+	) match	// @lengthOf(
+	trueish
+
+    as 
+packetx 
+{10: 
+Header
+    , 7
+:
+
+trueish
+    ""a\""b"" : 
+    // @lengthOf(
+
+// " ++ [27880; 37322]%N ++ runes_of_ascii "
+		pack	,} ,}")).
+Eval vm_compute in ("<<<M0>>>" ++ check (runes_of_ascii "packet leftPad// 50% %s
+{@tag(10 )@tag( 007) @lengthOf( a1 )repeat
+metadata , }
+    options
+{ // " ++ [128512]%N ++ runes_of_ascii " emoji
+lengthOf
+    // @lengthOf(
+    = """ ++ [128512]%N ++ runes_of_ascii """
+; }	packet
+T  {A
+    // " ++ [27880; 37322]%N ++ runes_of_ascii "
+    { tag
+@calculatedFrom(
+//
+// `tick` ""quote"" 'q'
+""abc""),}
+, @lengthOf(
+    matchKey ) string
+    Header @lengthOf(	metadata ) ,
+leftPad @calculatedFrom(""a\""b""
+    // trailing space 
+    )
+`tab	here` ,}")).
+Eval vm_compute in ("<<<M82>>>" ++ check (runes_of_ascii "packet stringy {  string
+    lengthOf  @calculatedFrom(""" ++ [128512]%N ++ runes_of_ascii """)
+, @lengthOf(MetaDataX) Logon
+{ string
+Pad`u8 x,` ,  } , // " ++ [128512]%N ++ runes_of_ascii " emoji
+@tag( 00	)
+@calculatedFrom(
+    """ ++ [28040; 24687]%N ++ runes_of_ascii """ )
+    repeat uint8 asx , @leftPad( '0'  ) @tag( 00 // c
+)
+    zchar[0 ]trueish `u8 x,` , Header @lengthOf(repeatCount )
+    ,} packet
+u128 {  } MetaData// trailing space 
+charz
+{ }")).
 Eval vm_compute in ("<<<M21>>>" ++ check (runes_of_ascii "options {
 // " ++ [27880; 37322]%N ++ runes_of_ascii "
 // " ++ [128512]%N ++ runes_of_ascii " emoji
@@ -694,298 +618,258 @@ u
 ] :zchar, } ,} MetaData T // packet A { u8 x, }
 {
 } 	 ")).
-Eval vm_compute in ("<<<M1740>>>" ++ check (runes_of_ascii "MetaData u {
-    f64 roots,
-    zchar trueish,
-}
+Eval vm_compute in ("<<<M1808>>>" ++ check (runes_of_ascii "
+// top
+	options // c0
+    {  // c1a
+		// c1b
+    LittleEndian= 	 // c3
+		true
 
-root packet Foo {
-    packetx,
-    repeat zchar[3] msg_type `
-    `,
-}
-
-root packet Header {
-    match u8x as options1 {
-        4294967296 : metadata,
-        // `tick` ""quote"" 'q'
-        4294967296 : float,
-    },//x
-}")).
-Eval vm_compute in ("<<<M1505>>>" ++ check (runes_of_ascii "options {
-    // c1
-    LittleEndian = true;
-}// c6
-
-packet B {
-    // c9
-    u8 a,// c12
-    string s,// c15a
-    // c15b
-}
-
-// c16
-root packet P {
-    // c20
-    u16 L @lengthOf(B),// c26a
-    // c26b
-    B,// c28
-    u8 t,
-    // c31
-}// c32a
-// c32b")).
-Eval vm_compute in ("<<<M422>>>" ++ check (runes_of_ascii "packet
-    asx { @calculatedFrom(
-""""  ) @tag( 255 255 )repeat
-// packet A { u8 x, }
-// trailing space 
-int16 u8x
-,
-@tag(
-    //
-    007 )
-    @tag( 0
-    /// triple
-    ) @tag( 1) u
-    @lengthOf( T ),
-// `tick` ""quote"" 'q'
-//x
-} // " ++ [128512]%N ++ runes_of_ascii " emoji")).
-Eval vm_compute in ("<<<M493>>>" ++ check (runes_of_ascii "packet
-    asx { @calculatedFrom(
-""""  ) @tag( 255 )repeat
-// packet A { u8 x, }
-// trailing space 
-int16 u8x
-,
-@tag(
-    //
-    007 )
-    @tag( 0
-    /// triple
-    ) @tag( 1 u )
-    @lengthOf( T ),
-// `tick` ""quote"" 'q'
-//x
-} // " ++ [128512]%N ++ runes_of_ascii " emoji")).
-Eval vm_compute in ("<<<M468>>>" ++ check (runes_of_ascii "packet
-    asx { @calculatedFrom(
-""""  ) @tag( 255 )repeat
-// packet A { u8 x, }
-// trailing space 
-int16 u8x
-,
-@tag(
-    //
-    007 )
-    0 @tag(
-    /// triple
-    ) @tag( 1) u
-    @lengthOf( T ),
-// `tick` ""quote"" 'q'
-//x
-} // " ++ [128512]%N ++ runes_of_ascii " emoji")).
-Eval vm_compute in ("<<<M544>>>" ++ check (runes_of_ascii "packet
-    x" ++ [178]%N ++ runes_of_ascii " { @calculatedFrom(
-""""  ) @tag( 255 )repeat
-// packet A { u8 x, }
-// trailing space 
-int16 u8x
-,
-@tag(
-    //
-    007 )
-    @tag( 0
-    /// triple
-    ) @tag( 1) u
-    @lengthOf( T ),
-// `tick` ""quote"" 'q'
-//x
-} // " ++ [128512]%N ++ runes_of_ascii " emoji")).
-Eval vm_compute in ("<<<M1510>>>" ++ check (runes_of_ascii "  packet
-    roots {
-f64
-u	@calculatedFrom(  ""a\\""	)
-, @tag( 1 )
-zchar[
-0 ]
-    stringy @lengthOf(	u  ) //	t
-    ,
-    } MetaData	body 
-	    // trailing space 
-
-{
-
-BodyLength tag ,
-	u32
-	MetaDataX  , // @lengthOf(
-    	}
-")).
-Eval vm_compute in ("<<<M1481>>>" ++ check (runes_of_ascii "
-root packet trueish	// packet A { u8 x, }
-	{ @tag(	00
-    // 50% %s
-
-)rootA @lengthOf(float
-)	,	@rightPad
-    (
-	'0')
-pack 
-string_
-
-, 
-}
-
-    packet i8i8
-
-    {  string
-	o
-
-@calculatedFrom( 
-""" ++ [128512]%N ++ runes_of_ascii """ ) ,
-}
-")).
-Eval vm_compute in ("<<<M294>>>" ++ check (runes_of_ascii "
-options  { Packet =u16 ;
-f32a
-    //
-    =
-""a\""b"" lengthOf= '0'
-; uint8x =
-    i8 uint8x ='\x00'; } packet
-    rootA {
-} options
-{
-uint8x =
-    // a // b
-    ""\" ++ [233]%N ++ runes_of_ascii """ } MetaData Packet {}
-")).
-Eval vm_compute in ("<<<M548>>>" ++ check (runes_of_ascii "MetaData MetaData u
-    { } MetaData o
-{ float uint8x
-`100% of %d` ,repeatCount u8x, string_ leftPad
-, i32
-    Foo , int64 x `two words` , calculatedFrom
-stringy `a\` ,
-}
-")).
-Eval vm_compute in ("<<<M147>>>" ++ check (runes_of_ascii "packet
-Pad { /// triple
-trueish {  uint16	Packet @lengthOf(i8i8 ) `" ++ [28040; 24687; 31867; 22411]%N ++ runes_of_ascii "`
-,Logon
-    , repeat// `tick` ""quote"" 'q'
-zchar[ 255  ]
-f32a	`say ""hi""` ,	}
-,
-    //	t
-    }
-")).
-Eval vm_compute in ("<<<M1423>>>" ++ check (runes_of_ascii "
-options
-    {
-    }
-    options
-{
-MetaDataX 
-=	char
     ;
-    }
-    MetaData
+}// c6a
+    // c6b
+    root	// c7a
+  	// c7b
+	packet
 
-    Pad
+    // c8
+	P
 
-{
-	i8 
-metadata,
-    string stringy ,  int8 
-      // c
-	As`{ , }`  ,
+    {  
+  // c10
+	repeat  char
+    // c12
 
-} ")).
-Eval vm_compute in ("<<<M628>>>" ++ check (runes_of_ascii "MetaData u
-    { } MetaData o
-{ float uint8x
-`100% of %d` ,repeatCount u8x, string_ leftPad
-i32 ,
-    Foo , int64 x `two words` , calculatedFrom
-stringy `a\` ,
+  cs , 
+      // c14
+u8
+x // c16a
+	  // c16b
+      ,
+
+    // c17
 }
 ")).
-Eval vm_compute in ("<<<M721>>>" ++ check (runes_of_ascii "packet
-crc
-{repeat  Foo A  `u8 x,` ,	@lengthOf( uint8x ) string
-matchKey @lengthOf( stringy ) `a\`
-,
+Eval vm_compute in ("<<<M6>>>" ++ check (runes_of_ascii "packet
+rootA
+{ match	BodyLength as A
+{ 42: leftPad ,	1: u8x, [ 10 ,
+    //
+    """ ++ [128512]%N ++ runes_of_ascii """ ] : // trailing space 
+i8i8
+    7// " ++ [128512]%N ++ runes_of_ascii " emoji
+: u8x , 007: trueish,
     // c
-    }
-MetaData chars{
-leftPad
-    //	t
-    crc
-`" ++ [233]%N ++ runes_of_ascii "`")).
-Eval vm_compute in ("<<<M671>>>" ++ check (runes_of_ascii "MetaData u
-    { } MetaData o
-{ float uint8x
-`100% of %d` ,repeatCount u8x, string_ leftPad
-, i32
-    Foo , int64 x `two words` , calculatedFrom
- `a\` ,
+    }, o uint8x , repeat
+zchar[
+7] //x
+pack ,
+string x_y_z@lengthOf(
+charz	)
+    `
+` , } // c")).
+Eval vm_compute in ("<<<M457>>>" ++ check (runes_of_ascii "packet
+    asx { @calculatedFrom(
+""""  ) @tag( 255 )repeat
+// packet A { u8 x, }
+// trailing space 
+int16 u8x
+,
+@tag(
+    //
+    007 007 )
+    @tag( 0
+    /// triple
+    ) @tag( 1) u
+    @lengthOf( T ),
+// `tick` ""quote"" 'q'
+//x
+} // " ++ [128512]%N ++ runes_of_ascii " emoji")).
+Eval vm_compute in ("<<<M538>>>" ++ check (runes_of_ascii "packet
+    asx { @calculatedFrom(
+""""  ) @tag( 255 )repeat
+// packet A { u8 x, }
+// trailing space 
+int16 ?u8x
+,
+@tag(
+    //
+    007 )
+    @tag( 0
+    /// triple
+    ) @tag( 1) u
+    @lengthOf( T ),
+// `tick` ""quote"" 'q'
+//x
+} // " ++ [128512]%N ++ runes_of_ascii " emoji")).
+Eval vm_compute in ("<<<M499>>>" ++ check (runes_of_ascii "packet
+    asx { @calculatedFrom(
+""""  ) @tag( 255 )repeat
+// packet A { u8 x, }
+// trailing space 
+int16 u8x
+,
+@tag(
+    //
+    007 )
+    @tag( 0
+    /// triple
+    ) @tag( 1) {
+    @lengthOf( T ),
+// `tick` ""quote"" 'q'
+//x
+} // " ++ [128512]%N ++ runes_of_ascii " emoji")).
+Eval vm_compute in ("<<<M441>>>" ++ check (runes_of_ascii "packet
+    asx { @calculatedFrom(
+""""  ) @tag( 255 )repeat
+// packet A { u8 x, }
+// trailing space 
+int16 
+,
+@tag(
+    //
+    007 )
+    @tag( 0
+    /// triple
+    ) @tag( 1) u
+    @lengthOf( T ),
+// `tick` ""quote"" 'q'
+//x
+} // " ++ [128512]%N ++ runes_of_ascii " emoji")).
+Eval vm_compute in ("<<<M15>>>" ++ check (runes_of_ascii "options{ x
+    = ""x y"";}
+options/// triple
+{ i8i8
+= 4294967296 crc =255
+// " ++ [128512]%N ++ runes_of_ascii " emoji
+// 50% %s
+; string_=	char[
+//x
+// a // b
+255]u
+    =  '\x00';	BodyLength
+    ='0' } packet u {float32 pack // `tick` ""quote"" 'q'
+,
 }
 ")).
-Eval vm_compute in ("<<<M60>>>" ++ check (runes_of_ascii "MetaData len{ }packet int
-    {
-repeat
-    char[1 ] stringy,}// a // b
-packet MetaDataX { zchar[
-10]
-leftPad
-@calculatedFrom( ""// no comment"" )
-, }
-")).
-Eval vm_compute in ("<<<M1893>>>" ++ check (runes_of_ascii "packet A
-    {  match 
-k  as n
-
-    {[  ""a"", 22 ,
-	""c c"" ,4
-
-    , ""e""
-	,
-
-    66	, ""g"" , 
-8 
-,""i""
-	,10]  : B
-
-,  2
-:C
-
-    }  ,
-	}")).
-Eval vm_compute in ("<<<M1413>>>" ++ check (runes_of_ascii "
-
-  options  {	}  options
-{ MetaDataX =	char;	} 	 // c
-  	MetaData
-Pad
-	{
-	i8	metadata ,
-string
-
-stringy	, int8
-    As `{ , }`,
-	} ")).
-Eval vm_compute in ("<<<M1733>>>" ++ check (runes_of_ascii "packet A {
+Eval vm_compute in ("<<<M1769>>>" ++ check (runes_of_ascii "packet A {
     Inner {
         u8 x `a
-        b`,
+                    b
+                  c`,
         Deep {
             u8 y `a
-            b`,
+                            b
+                          c`,
         },
     },
 }")).
-Eval vm_compute in ("<<<M983>>>" ++ check (runes_of_ascii "packet A {
+Eval vm_compute in ("<<<M667>>>" ++ check (runes_of_ascii "MetaData u
+    { } MetaData o
+{ float uint8x
+`100% of %d` ,repeatCount u8x, string_ leftPad
+, i32
+    Foo , int64 x `two words` , calculatedFrom calculatedFrom
+stringy `a\` ,
+}
+")).
+Eval vm_compute in ("<<<M1449>>>" ++ check (runes_of_ascii "packet A {
+    match k as n {
+        [
+            ""a"", ""bb"", ""c c"", ""d"", ""e"",
+            ""f"", ""g"", ""h"", ""i"", ""j"",
+            ""k""
+        ] : B,
+        2 : C,
+    },
+}")).
+Eval vm_compute in ("<<<M579>>>" ++ check (runes_of_ascii "MetaData u
+    { } MetaData o
+u32 float uint8x
+`100% of %d` ,repeatCount u8x, string_ leftPad
+, i32
+    Foo , int64 x `two words` , calculatedFrom
+stringy `a\` ,
+}
+")).
+Eval vm_compute in ("<<<M553>>>" ++ check (runes_of_ascii "MetaData {
+    u } MetaData o
+{ float uint8x
+`100% of %d` ,repeatCount u8x, string_ leftPad
+, i32
+    Foo , int64 x `two words` , calculatedFrom
+stringy `a\` ,
+}
+")).
+Eval vm_compute in ("<<<M1565>>>" ++ check (runes_of_ascii "packet A {
+    Inner {
+        match k as n {
+            [
+                1, 22, 007, 4, 5,
+                66, 7, 8, 9, 10
+            ] : B,
+        },
+    },
+}")).
+Eval vm_compute in ("<<<M676>>>" ++ check (runes_of_ascii "MetaData u
+    { } MetaData o
+{ float uint8x
+`100% of %d` ,repeatCount u8x, string_ leftPad
+, i32
+    Foo , int64 x `two words` , calculatedFrom
+stringy  ,
+}
+")).
+Eval vm_compute in ("<<<M1846>>>" ++ check (runes_of_ascii "packet A {
+    Inner {
+        match k as n {
+            [
+                1, 22, 007, 4, 5,
+                66, 7
+            ] : B,
+        },
+    },
+}")).
+Eval vm_compute in ("<<<M1762>>>" ++ check (runes_of_ascii "
+packet
+A
+{match k as
+
+n  { [
+	""a"" ,
+
+    ""bb"" ,
+
+    ""c c""
+    , ""d""
+    , 
+""e"" ,
+    ""f""
+
+    , ""g""  ,	""h""
+    ,""i""
+] : B	,
+	2  :
+C } ,}")).
+Eval vm_compute in ("<<<M153>>>" ++ check (runes_of_ascii "MetaData packetx { As packetx // @lengthOf(
+`it's` ,
+f64
+Foo ,u8x i64_ , u32
+    x `doc` // " ++ [27880; 37322]%N ++ runes_of_ascii "
+, int32 metadata , string _x
+    ,	}
+")).
+Eval vm_compute in ("<<<M1887>>>" ++ check (runes_of_ascii "packet A {
+    match k as n {
+        [
+            ""a"", 22, ""c c"", 4, ""e"",
+            66
+        ] : B,
+        2 : C,
+    },
+}")).
+Eval vm_compute in ("<<<M986>>>" ++ check (runes_of_ascii "packet A {
     match k as n {
         ""x\
 y"" : B,
@@ -995,128 +879,179 @@ y"", 1] : C,
 y""] : D,
     },
 }")).
-Eval vm_compute in ("<<<M1220>>>" ++ check (runes_of_ascii "options { } options { MetaDataX = char ;
-// c
-} MetaData Pad { i8 metadata , string stringy , int8 As `{ , }` , }")).
-Eval vm_compute in ("<<<M455>>>" ++ check (runes_of_ascii "packet
-    asx { @calculatedFrom(
-""""  ) @tag( 255 )repeat
-// packet A { u8 x, }
-// trailing space 
-int16 u8x
-,")).
-Eval vm_compute in ("<<<M1947>>>" ++ check (runes_of_ascii "
-MetaData  calculatedFrom{ x
+Eval vm_compute in ("<<<M1211>>>" ++ check (runes_of_ascii "options { } options { // c
+MetaDataX = char ; } MetaData Pad { i8 metadata , string stringy , int8 As `{ , }` , }")).
+Eval vm_compute in ("<<<M1243>>>" ++ check (runes_of_ascii "options { } options { MetaDataX = char ; } MetaData Pad { i8 metadata , string stringy , int8 As // c
+`{ , }` , }")).
+Eval vm_compute in ("<<<M878>>>" ++ check (runes_of_ascii "packet A {
+  match k as n {
+    [""a"", ""bb"", ""c c"", ""d"", ""e"", ""f"", ""g"", ""h"", ""i"", ""j""] : B,
+    2 : C
+  },
+}")).
+Eval vm_compute in ("<<<M865>>>" ++ check (runes_of_ascii "packet A {
+  match k as n {
+    [""a"", ""bb"", ""c c"", ""d"", ""e"", ""f"", ""g"", ""h"", ""i""] : B,
+    2 : C
+  },
+}")).
+Eval vm_compute in ("<<<M1914>>>" ++ check (runes_of_ascii "
 
-    float
-    ,
-    //x
-    //	t
-	T lengthOf	,	}
-    root  packet Pad
-{
-}")).
-Eval vm_compute in ("<<<M1328>>>" ++ check (runes_of_ascii "packet FooBar {
-    u8 a,
+  packet
+
+    A{
+	Inner{
+
+    u8 
+x `x
+`
+
+    , Deep {
+	u8
+    y
+    `x
+`
+	,
+	}
+
+,  }  , }")).
+Eval vm_compute in ("<<<M356>>>" ++ check (runes_of_ascii "options{asx
+    // " ++ [128512]%N ++ runes_of_ascii " emoji
+    = char
 }
-packet foo_bar {
-    u16 b,
-}
-root packet R {
-    FooBar,
-    foo_bar,
-}
-")).
-Eval vm_compute in ("<<<M902>>>" ++ check (runes_of_ascii "packet A {
+options{  }
+    packet BodyLength {
+    a1 uint8x , }")).
+Eval vm_compute in ("<<<M872>>>" ++ check (runes_of_ascii "packet A {
   match k as n {
-    [1, 22, 007, 4, 5, 66, 7, 8, 9, 10, 11, 12] : B,
+    [1, 22, ""c c"", 4, 5, ""f"", 7, 8, ""i""] : B
     2 : C
   },
 }")).
-Eval vm_compute in ("<<<M889>>>" ++ check (runes_of_ascii "packet A {
+Eval vm_compute in ("<<<M219>>>" ++ check (runes_of_ascii "packet u {Foo @lengthOf(
+    crc)`{ , }`
+//	t
+//x
+, @tag( /// triple
+007
+    ) o
+,
+}")).
+Eval vm_compute in ("<<<M828>>>" ++ check (runes_of_ascii "packet A {
   match k as n {
-    [1, 22, 007, 4, 5, 66, 7, 8, 9, 10, 11] : B,
+    [1, ""bb"", 007, ""d"", 5, ""f""] : B,
     2 : C
   },
 }")).
-Eval vm_compute in ("<<<M341>>>" ++ check (runes_of_ascii "MetaData rootA {
-uint8 msg_type ,zchar[
-    //
-    42 ]
-    As, T int
-    , } // a // b")).
-Eval vm_compute in ("<<<M386>>>" ++ check (runes_of_ascii "root packet SimpleMessage {
-	uint16 MsgType `" ++ [28040; 24687; 31867; 22411]%N ++ runes_of_ascii "`,
-	string JsonBody `Json" ++ [23383; 31526; 20018; 28040; 24687; 20307]%N ++ runes_of_ascii "`,
-}")).
-Eval vm_compute in ("<<<M846>>>" ++ check (runes_of_ascii "packet A {
+Eval vm_compute in ("<<<M818>>>" ++ check (runes_of_ascii "packet A {
   match k as n {
-    [1, 22, ""c c"", 4, 5, ""f"", 7] : B
+    [""a"", 22, ""c c"", 4, ""e""] : B
     2 : C
   },
 }")).
-Eval vm_compute in ("<<<M1139>>>" ++ check (runes_of_ascii "// top
-root
-    // c0
+Eval vm_compute in ("<<<M1509>>>" ++ check (runes_of_ascii "
 packet
-    // c1
-a1
-    // c2
-{
-    // c3
+A  {
+
+    B
+b`a
+b`
+,
+
+B
+`a
+b`
+
+,repeat	B  bs `a
+b`
+
+,
+
 }
-    // c4
 ")).
-Eval vm_compute in ("<<<M803>>>" ++ check (runes_of_ascii "packet A {
-  match k as n {
-    [1, ""bb"", 007, ""d""] : B
-    2 : C
-  },
-}")).
-Eval vm_compute in ("<<<M1444>>>" ++ check (runes_of_ascii "root packet lengthOf {
-    repeatCount {
-        uint64 u8x,
-    },
+Eval vm_compute in ("<<<M976>>>" ++ check (runes_of_ascii "packet A {
+    B b `%%d%!`,
+    B `%%d%!`,
+    repeat B bs `%%d%!`,
 }")).
 Eval vm_compute in ("<<<M836>>>" ++ check (runes_of_ascii "packet A { Inner { match k as n { [1,22,007,4,5,66] : B, }, }, }")).
 Eval vm_compute in ("<<<M758>>>" ++ check (runes_of_ascii "`100% of %d` packet ] { match packet int32 repeat int16 = }")).
-Eval vm_compute in ("<<<M280>>>" ++ check (runes_of_ascii "packet T{ zchar[  7
-]  charz , } packet MetaDataX { }
-")).
-Eval vm_compute in ("<<<M1540>>>" ++ check (runes_of_ascii "options{
+Eval vm_compute in ("<<<M1916>>>" ++ check (runes_of_ascii "packet A {
+}
 
-    A  =	// c
-		""// no comment"" 
+packet B {
+}
+
+MetaData M {
+}
+
+options {
+}")).
+Eval vm_compute in ("<<<M91>>>" ++ check (runes_of_ascii "// c
+MetaData leftPad { msg_type As
+`{ , }`
+,}
+")).
+Eval vm_compute in ("<<<M1892>>>" ++ check (runes_of_ascii "
+root
+packet
+    A
+	{ u8 x 
+`a
+b`  ,
+}
+
+")).
+Eval vm_compute in ("<<<M1908>>>" ++ check (runes_of_ascii "
+
+  // c" ++ [133]%N ++ runes_of_ascii "
+      packet  A	{
+
+    }
+
+")).
+Eval vm_compute in ("<<<M1452>>>" ++ check (runes_of_ascii "  // c
+root
+
+    packet
+	a1
+
+{ } ")).
+Eval vm_compute in ("<<<M1513>>>" ++ check (runes_of_ascii "
+packet
+A
+    {
+u8
+
+x  `%` , } ")).
+Eval vm_compute in ("<<<M1007>>>" ++ check (runes_of_ascii "packet A {
+ u8 x `d" ++ [160]%N ++ runes_of_ascii "`, // c" ++ [160]%N ++ runes_of_ascii "
+}")).
+Eval vm_compute in ("<<<M1881>>>" ++ check (runes_of_ascii "packet
+	A{ u8
+x
+	`
+x` , 
+}
+
+")).
+Eval vm_compute in ("<<<M1815>>>" ++ check (runes_of_ascii "
+
+  options//	t
+
+	{ 
 }
 ")).
-Eval vm_compute in ("<<<M981>>>" ++ check (runes_of_ascii "options {
-    a = ""x\
-y"";
-    b = ""x\
-y""
+Eval vm_compute in ("<<<M1127>>>" ++ check (runes_of_ascii "MetaData tag
+// c
+{ }")).
+Eval vm_compute in ("<<<M1031>>>" ++ check (runes_of_ascii "// c" ++ [8232]%N ++ runes_of_ascii "
+packet A {
 }")).
-Eval vm_compute in ("<<<M743>>>" ++ check ([65533; 65533]%N ++ runes_of_ascii "%" ++ [65533; 65533; 23]%N ++ runes_of_ascii "C" ++ [65533]%N ++ runes_of_ascii "c$/" ++ [65533; 18]%N ++ runes_of_ascii "o" ++ [65533; 65533]%N ++ runes_of_ascii "A" ++ [14; 65533]%N ++ runes_of_ascii "Z" ++ [65533; 25; 65533]%N ++ runes_of_ascii "x" ++ [65533]%N ++ runes_of_ascii "I?w" ++ [65533; 65533; 65533]%N ++ runes_of_ascii """&" ++ [924]%N ++ runes_of_ascii "R" ++ [65533; 20; 65533]%N)).
-Eval vm_compute in ("<<<M1189>>>" ++ check (runes_of_ascii "options { A = // c
-""// no comment"" }")).
-Eval vm_compute in ("<<<M49>>>" ++ check (runes_of_ascii "root packet i8i8
-{ } /// triple")).
-Eval vm_compute in ("<<<M1037>>>" ++ check (runes_of_ascii "packet A {
- u8 x `d" ++ [8233]%N ++ runes_of_ascii "`, // c" ++ [8233]%N ++ runes_of_ascii "
-}")).
-Eval vm_compute in ("<<<M1445>>>" ++ check (runes_of_ascii "packet
-
-    BodyLength {}")).
-Eval vm_compute in ("<<<M1143>>>" ++ check (runes_of_ascii "root // c
-packet a1 { }")).
-Eval vm_compute in ("<<<M1479>>>" ++ check (runes_of_ascii "packet A {
-    // a
-}")).
-Eval vm_compute in ("<<<M1035>>>" ++ check (runes_of_ascii "packet A {
-}
-// c" ++ [8233]%N)).
-Eval vm_compute in ("<<<M1023>>>" ++ check (runes_of_ascii "packet A {
-}// c" ++ [8202]%N)).
+Eval vm_compute in ("<<<M1013>>>" ++ check (runes_of_ascii "packet A {
+}// c" ++ [5760]%N)).
 Eval vm_compute in ("<<<M1091>>>" ++ check (runes_of_ascii "
 
   packet A {}")).
-Eval vm_compute in ("<<<M1009>>>" ++ check (runes_of_ascii "// c" ++ [133]%N)).
+Eval vm_compute in ("<<<M754>>>" ++ check (runes_of_ascii "int64")).
+Eval vm_compute in ("<<<M725>>>" ++ check (runes_of_ascii "")).
